@@ -1885,9 +1885,13 @@ class GramStack(Stack):
         '''
         if self.handler.opened:
             laters = deque()
-            blockeds = [] # will always be empty since only once
+            blockeds = []
             if self.txPkts:
                 self._serviceOneTxPkt(laters, blockeds)
+            for duple in list(self.txPkts):  # keep later packets to a blocked
+                if duple[1] in blockeds:     # destination behind the failed one
+                    self.txPkts.remove(duple)
+                    laters.append(duple)
             while laters:
                 self.txPkts.append(laters.popleft())
 
